@@ -158,10 +158,13 @@ def run_case(case):
             again = np.full((nz, nth), np.nan)
             op.parallel_gradient(phi.copy(), i, again)
             ev["identity_checks"] += 1
-            if not np.array_equal(again, got):
+            # (the property does not ask for bit-wise reproducibility: the repeated answer is judged like the first one)
+            ref_b, _w = ref_gradient(phi, thetaref, eta[1], dz, best[2], bz, float(iota_all[I]), R0)
+            e_again = float(np.nanmax(np.abs(again - ref_b))) if np.all(np.isfinite(again)) else np.inf
+            if not e_again <= best[1]:
                 return result(VIOL, cls=sorted(cls), events=ev, key="C13:repeated-call-differs",
-                              what="parallel_gradient called twice with the same arguments on the same object gives different results (max change %.3g), order %d, local r index %d"
-                              % (float(np.nanmax(np.abs(again - got))), order, i), witness=dict(wit0, rank=k, i=i))
+                              what="parallel_gradient called a second time with the same arguments on the same object differs from the formula by %.3g (tol %.3g; first call %.3g; change between the calls %.3g), order %d, local r index %d"
+                              % (e_again, best[1], best[0], float(np.nanmax(np.abs(again - got))), order, i), witness=dict(wit0, rank=k, i=i))
             if k == 0 and i == 0:
                 # identities on the real code
                 def run(A):
